@@ -1062,6 +1062,59 @@ func TestVerifC07(t *testing.T) {
 			rep.Case("complete|"+sh.desc, true)
 		}
 
+		// --- the verification steps of reapInternal: a damaged input file is noticed before the plan
+		// is built or written (inputs.Check, when the store-wide check already ran in this process;
+		// otherwise ensureVerified), and nothing is touched
+		if len(p.Ops) > 0 && p.Ops[0].Type == plan.OpCheckpoint && len(p.Ops[0].WALs) > 0 && (si < 10 || vfThorough()) {
+			for _, verifiedFirst := range []bool{true, false} {
+				restore()
+				str, err := NewStore(e.root)
+				if err != nil {
+					t.Fatalf("NewStore: %v", err)
+				}
+				str.fatalFn = nil
+				str.SetNoVerifyDB(!verify)
+				str.reapDisabled.Set()
+				if verifiedFirst {
+					if verr := str.EnsureVerify(); verr != nil {
+						t.Fatalf("EnsureVerify on the pristine store: %v", verr)
+					}
+				}
+				victim := p.Ops[0].WALs[len(p.Ops[0].WALs)-1]
+				wb, rerr0 := os.ReadFile(victim)
+				if rerr0 != nil || len(wb) < 64 {
+					t.Fatalf("harness: cannot read input %s: %v", victim, rerr0)
+				}
+				wb[len(wb)/2] ^= 0xff
+				os.WriteFile(victim, wb, 0o644)
+				before := e.dumpReal()
+				_, _, rerr := str.reapInternal()
+				kind, vok, iok := "inputs-crc", 1, 0
+				if !verifiedFirst {
+					kind, vok, iok = "verify-crc", 0, 0
+				}
+				got := "ok"
+				if rerr != nil {
+					got = "err " + c07ErrKind(rerr.Error())
+					if strings.Contains(rerr.Error(), "CRC32 mismatch") {
+						got = "err " + kind
+					}
+				}
+				after := e.dumpReal()
+				if rerr == nil || after != before || fileExistsC07(filepath.Join(e.root, reapPlanFile)) {
+					rep.Fail("reap-proceeds-on-damaged-input", fmt.Sprintf("shape %s, input %s damaged (store-wide check ran before: %v): reapInternal = %v, store changed: %v, plan file: %v",
+						sh.desc, filepath.Base(victim), verifiedFirst, rerr, after != before, fileExistsC07(filepath.Join(e.root, reapPlanFile))), map[string]interface{}{"shape": sh.desc})
+				}
+				str.Close()
+				o := append(append([]string(nil), setup...), "check", fmt.Sprintf("reapck %d %d %d %d", c07NewName, vb, vok, iok))
+				im := append(append([]string(nil), impl[:len(setup)]...), "ok", got)
+				allOps = append(allOps, o)
+				allImpl = append(allImpl, im)
+				rep.Count("verification:" + kind)
+			}
+			restore()
+		}
+
 		// --- crash enumeration
 		type cutSpec struct {
 			k   int
